@@ -152,9 +152,14 @@ func (e *Enc) enterLoop(f *frame, li *loopInfo, order []*ssa.BasicBlock) {
 		e.abstracted["loop-without-invariant(havoc only):"+f.name+fmt.Sprintf("#%d", li.ordinal)]++
 	}
 	if lc != nil {
-		env := e.cellEnv(f, li.pos, e.cur)
+		env := e.cellEnv(f, li.pos, e.cur.clone())
 		for _, inv := range lc.Invariants {
+			n := len(e.obls)
 			e.oblige("loop", label+".init."+inv.Label, e.evalBool(env, inv), li.pos)
+			if len(e.obls) > n {
+				e.obls[n].Env = env
+				e.obls[n].ClauseText = inv.Text
+			}
 		}
 	}
 	// stage 1: from an arbitrary state, which cells / variables can be written
@@ -271,9 +276,14 @@ func (e *Enc) backEdge(f *frame, li *loopInfo, from *ssa.BasicBlock) {
 	if n > 0 {
 		suffix = fmt.Sprintf("@%d", n)
 	}
-	env := e.cellEnv(f, li.pos, e.cur)
+	env := e.cellEnv(f, li.pos, e.cur.clone())
 	for _, inv := range lc.Invariants {
+		n0 := len(e.obls)
 		e.oblige("loop", label+".preserve."+inv.Label+suffix, e.evalBool(env, inv), li.pos)
+		if len(e.obls) > n0 {
+			e.obls[n0].Env = env
+			e.obls[n0].ClauseText = inv.Text
+		}
 	}
 	if lc.Decreases != nil && li.hasMeas {
 		m := e.asInt(env, e.evalClauseVal(env, *lc.Decreases))
@@ -307,6 +317,7 @@ func (e *Enc) dryRun(f *frame, li *loopInfo, order []*ssa.BasicBlock, onlyC map[
 	n0 := e.nfresh
 	savedSkip := f.skipEnter
 	savedCalls, savedSafety := copyCounts(e.frames[0].ncall), copyCounts(e.frames[0].nsafety)
+	savedAll := copyCounts(f.ncallAll)
 	nerrs := len(e.errs)
 
 	e.dry++
@@ -365,6 +376,7 @@ func (e *Enc) dryRun(f *frame, li *loopInfo, order []*ssa.BasicBlock, onlyC map[
 	f.rets, f.defers = f.rets[:savedRets], f.defers[:savedDefers]
 	f.skipEnter = savedSkip
 	e.frames[0].ncall, e.frames[0].nsafety = savedCalls, savedSafety
+	f.ncallAll = savedAll
 	e.errs = e.errs[:nerrs]
 	e.writesC, e.writesV = savedWC, savedWV
 	e.writesFull, e.writesIdx, e.freshIdx = savedWF, savedWI, savedFI
